@@ -25,6 +25,7 @@ func (e *kvElection) heartbeatLoop(ctx context.Context) {
 	for {
 		select {
 		case <-ctx.Done():
+			e.handleHeartbeatContextDone()
 			return
 		case <-ticker.C:
 			// ctx is the context of the term this loop was started for: a tick
@@ -129,6 +130,7 @@ func (e *kvElection) heartbeatLoop(ctx context.Context) {
 			var updateErr error
 			select {
 			case <-ctx.Done():
+				e.handleHeartbeatContextDone()
 				return
 			case <-time.After(updateTimeout):
 				updateErr = NewTimeoutError("heartbeat update", updateTimeout, nil)
@@ -224,6 +226,16 @@ func (e *kvElection) heartbeatLoop(ctx context.Context) {
 			e.lastHeartbeat.Store(time.Now())
 		}
 	}
+}
+
+// handleHeartbeatContextDone is called when the heartbeat loop ends because its
+// context is done. After a demotion or a Stop the claim is already cleared and
+// this does nothing. If instead the context given to Start was cancelled, nobody
+// refreshes the record any more: the instance must not go on reporting
+// leadership of a record that is about to expire, so it steps down (with
+// OnDemote) like for any other loss of leadership.
+func (e *kvElection) handleHeartbeatContextDone() {
+	e.demote("context_cancelled")
 }
 
 func (e *kvElection) handleHeartbeatFailure(err error) {
